@@ -109,6 +109,7 @@ func Run(run *vh.Run) {
 	run.Floor("vaults intact after a SELFDESTRUCT in a rolled-back frame", run.Get("vaults_intact_after_a_reverted_selfdestruct"), int64(run.N(6, 60)))
 	run.Floor("successful transactions touching the storage-only account whose lowest slot holds zero", run.Get("transactions_touching_the_storage_only_account_whose_lowest_slot_is_zero"), int64(run.N(2, 30)))
 	run.Floor("storage written by init code of contracts that self-destruct in their constructor", run.Get("constructor_selfdestructs_after_sstore"), int64(run.N(10, 150)))
+	run.Floor("contracts that self-destruct in their constructor after clearing a slot they had written", run.Get("constructor_selfdestructs_after_clearing_a_slot"), int64(run.N(5, 70)))
 	run.Floor("deletions observed", run.Get("accounts_deleted"), int64(run.N(10, 150)))
 	run.Assumptions = append(run.Assumptions, "delegation of locked coins is not 'spending' (standard vesting semantics); the staking precompile is not part of this workload",
 		"an account that existed with code before the transaction and is deleted must be one whose code contains a reachable SELFDESTRUCT (known from the generator)")
@@ -302,8 +303,15 @@ func world(run *vh.Run, label string, wi, nBlocks int) {
 			case k < 9: // one-off contract: touch several specials (BALANCE + zero-value CALL), then maybe selfdestruct toward one
 				a := vh.NewAsm()
 				stored := r.Bool()
+				cleared := false
 				if stored { // storage written by the constructor of a contract that may destroy itself right there
-					a.SStore(uint64(1+r.Intn(3)), 7)
+					slot := uint64(1 + r.Intn(3))
+					a.SStore(slot, 7)
+					if r.Bool() { // ... and cleared again (a slot holding zero), next to one that stays live
+						a.SStore(slot+10, 9)
+						a.SStore(slot+10, 0)
+						cleared = true
+					}
 				}
 				for j := r.Range(1, 4); j > 0; j-- {
 					t := vh.Pick(r, specials).addr
@@ -316,6 +324,9 @@ func world(run *vh.Run, label string, wi, nBlocks int) {
 					kind = "selfdestruct-toward"
 					if stored {
 						run.Count("constructor_selfdestructs_after_sstore", 1)
+					}
+					if cleared {
+						run.Count("constructor_selfdestructs_after_clearing_a_slot", 1)
 					}
 				} else {
 					a.Op(vm.STOP)
